@@ -167,7 +167,7 @@ def gen_annotations(rng, quick):
         if t not in seen:
             seen.add(t)
             trees.append(t)
-    per_shape = 5 if quick else 36
+    per_shape = 5 if quick else 30
     for n in range(1, 6):
         for shape in forests(n, 4):
             k = n_leaves(shape)
@@ -218,7 +218,10 @@ def q_render(a):
     if k == "par":
         return "(" + q_render(a[1]) + ")"
     if k == "desc":
-        return "[" + q_render(a[1]) + "]"
+        # directly nested descendant groups are written '[ [' / '] ]': the adjacent spelling '[[' is lexed as ONE legacy
+        # token (known defect 2) - it is checked separately under its own label so that the laws stay evaluated
+        inner = q_render(a[1])
+        return "[" + (" " if inner.startswith("[") else "") + inner + (" " if inner.endswith("]") else "") + "]"
     if k == "ex":
         return "{" + q_render(a[1]) + "}"
     if k == "ex0":
@@ -326,6 +329,9 @@ class Plan:
             a1, a2, b = (rng.choice(term_atoms) for _ in range(3))
             self.union.append((self.add(("and", ("or", a1, a2), b)), [atom_mode(a1), atom_mode(a2)], atom_mode(b)))
             self.union.append((self.add(("and", b, ("or", a1, a2))), [atom_mode(a1), atom_mode(a2)], atom_mode(b)))
+        for a in atoms[:4]:
+            self.add(("desc", ("desc", a)))
+            self.add(("desc", ("and", a, ("desc", atoms[0]))))
         # -- symmetric inside a context (atoms only)
         for a, b in itertools.combinations(atoms, 2):
             for k in ("desc", "ex", "ex0", "par"):
@@ -783,6 +789,13 @@ def run(w: Workload):
     for i in plan.wellformed:
         if _G["outcomes"][i] != "ok":
             w.fail("C15.parse.wellformed_compiles", {"text": texts[i]}, _G["outcomes"][i], "compiles")
+    for i in plan.wellformed:
+        if "[ [" in texts[i] or "] ]" in texts[i]:
+            adjacent = texts[i].replace("[ [", "[[").replace("] ]", "]]")
+            o = compile_query(adjacent)[1]
+            if o != "ok":
+                w.fail("C15.parse.wellformed_compiles.double_square_token", {"text": adjacent}, o,
+                       "compiles (it does when written " + repr(texts[i]) + ")")
     for i, o in enumerate(_G["outcomes"]):
         if o not in ("ok", "ValueError"):
             w.fail("C15.parse.only_valueerror", {"text": texts[i]}, o, "compiles or raises ValueError")
@@ -933,10 +946,10 @@ def replay(w: Workload, case: dict):
     schema()
     if clause.startswith("C15.parse.") or "text" in inp:
         fails = []
-        check_text(inp["text"], fails, want_compile=clause.endswith("wellformed_compiles"))
+        check_text(inp["text"], fails, want_compile="wellformed_compiles" in clause)
         for f in fails:
-            if f[0] == clause:
-                w.fail(*f)
+            if f[0] == clause or (f[0] == "C15.parse.wellformed_compiles" and "wellformed_compiles" in clause):
+                w.fail(clause, f[1], f[2], f[3])
         return
     a = inp.get("annotation")
     if clause.startswith("C15.term."):
